@@ -91,6 +91,17 @@ class Interp(ExprMixin, StmtMixin, CallMixin, BuiltinMixin, HeapMixin, SpecMixin
             return
         if c is False:
             raise Abort()
+        if z3.is_quantifier(c) and c.is_exists() and not getattr(self, 'spec_mode', False):
+            # an assumed existential names its witness: a fresh constant, treated as a touched index so that the
+            # deferred (index-local) invariants are instantiated there
+            ks = [self.fresh('ex_' + c.var_name(i), 'int') if c.var_sort(i) == z3.IntSort() else None for i in range(c.num_vars())]
+            if all(k is not None for k in ks):
+                body = z3.substitute_vars(c.body(), *reversed(ks))
+                for k in ks:
+                    self.touch_index(k)
+                for cc in self.conjuncts(body):
+                    self.assume(cc)
+                return
         self.pc.append(c)
         self.solver.add(c)
 
